@@ -7,6 +7,7 @@ functions over the cluster description only (no use of the model's maps, routing
 -/
 import KafkaVerif.Base.Proto
 import KafkaVerif.Model.Routing
+import KafkaVerif.Model.Discover
 import KafkaVerif.Spec.Routing
 import KafkaVerif.Gen.Routing
 
@@ -298,6 +299,38 @@ def sendHolds (key : Nat) (split : Bool) (boot : Int) (m : MResponse) (down : Li
       | none => true
     addrOK && verOK && routeOK
 
+/-! ### `follow`: the refresh loop under scripted faults -/
+
+open KV.Discover in
+/-- the event sequence a fault script drives the refresh loop through: `kind@n` = n−1 good refreshes, then the
+faulty one, then the refresh that has to pick the leader move up -/
+def followEvents (script : List String) : Option (List DEvent) :=
+  let m0 : MResponse := ⟨0, [⟨0, "b0", 9092, ""⟩], "", 0, []⟩
+  let good : List DEvent := [.tick, .answer m0]
+  (script.mapM fun (x : String) =>
+    match x.splitOn "@" with
+    | [k, n] => do
+      let n ← String.toNat? n
+      let fault : List DEvent ←
+        (match k with
+        | "stall" | "late" => some [DEvent.tick, .timeout]
+        | "delay" | "none" => some good
+        | "drop" => some [.tick, .reqError]
+        | "dialfail" => some [.tick, .reqError, .connFail]
+        | _ => none)
+      pure ((List.replicate (n - 1) good).flatten ++ fault ++ good)
+    | _ => none).map List.flatten
+
+open KV.Discover in
+def followModel (script : List String) : String :=
+  match followEvents script with
+  | none => "bad-script"
+  | some es =>
+    match run discoverExits {} (good0 ++ es) with
+    | some s => if s.alive then "within=1 gap=1" else "within=0 gap=1"
+    | none => "within=0 gap=1"   -- the loop left before the script ended: no refresh ever follows the move
+where good0 : List KV.Discover.DEvent := [.tick, .answer ⟨0, [⟨0, "b0", 9092, ""⟩], "", 0, []⟩]
+
 /-! ### dispatcher -/
 
 def kv (pfx : String) (s : String) : Option String :=
@@ -369,7 +402,10 @@ def step (line : String) : String :=
         answer (sendModel a boot m down vt coords q)
           (sendHolds a.apiKey a.split boot m down (c1, c2) vt coords q impl)
       | _, _, _, _, _, _, _, _ => "bad-op"
-    | ["follow", _] => answer "within=1" (impl == "within=1")
+    | ["follow", _, faults] =>
+      match kv "faults=" faults with
+      | some fs => answer (followModel (splitD fs ",")) (impl == "within=1 gap=1")
+      | none => "bad-op"
     | _ => "bad-op"
   | _ => "bad-op"
 
